@@ -281,6 +281,14 @@ impl PngData {
 
 impl PngImage {
     pub fn new(ihdr: IhdrData, compressed_data: &[u8]) -> Result<Self, PngError> {
+        // Deflate cannot expand data by more than a factor of 1032, so dimensions that imply more
+        // pixel data than that can only come from a corrupt header. Reject them before they are
+        // used for any size arithmetic or allocation.
+        let min_size =
+            u128::from(ihdr.width) * u128::from(ihdr.height) * ihdr.bpp() as u128 / 8;
+        if min_size > compressed_data.len() as u128 * 1032 {
+            return Err(PngError::TruncatedData);
+        }
         let raw_data = deflate::inflate(compressed_data, ihdr.raw_data_size())?;
 
         // Reject files with incorrect width/height or truncated data
